@@ -9,19 +9,19 @@ ASSUMPTIONS = [
     '-DNDEBUG build',
 ]
 OUTSIDE = ['shapes other than listed', 'symbolic coefficients through the line solves']
-BOUNDS = {'quick': '(7,4,3) (7,8,3) (9,8,auto) x both modes x both strategies x T in {1,2}',
+BOUNDS = {'quick': '(7,4,3) (7,8,3) (9,8,auto) (7,12,3) (9,8,4: even number of circles) x both modes x both strategies x T in {1,2}',
           'thorough': '+ (7,8,4) (9,8,4) (9,8,5) (9,16,auto) (7,12,3) (11,8,4), 2 coefficient variants'}
 
 
 def jobs(tier, seed):
     J = []
     q = tier == 'quick'
-    shapes = [(7, 4, 3), (7, 8, 3), (9, 8, -1)] if q else [(7, 4, 3), (7, 8, 3), (7, 8, 4), (9, 8, -1), (9, 8, 4), (9, 8, 5), (7, 12, 3), (9, 16, -1), (11, 8, 4)]
+    shapes = [(7, 4, 3), (7, 8, 3), (9, 8, -1), (7, 12, 3), (9, 8, 4)] if q else [(7, 4, 3), (7, 8, 3), (7, 8, 4), (9, 8, -1), (9, 8, 4), (9, 8, 5), (7, 12, 3), (9, 16, -1), (11, 8, 4)]
     for (nr, nt, nC) in shapes:
         for dirbc in (0, 1):
             for strat in (0, 1):
                 for T in (1, 2):
-                    if q and T == 2 and strat == 0 and nr > 6:
+                    if q and T == 2 and strat == 0 and nr > 6 and nt != 12:
                         continue
                     for v in ((0,) if q else (0, 1)):
                         J.append(dict(entry='h_exsweep', args=[nr, nt, nC, dirbc, strat, T, 0, v], label=f'exsweep {nr}x{nt} nC={nC} dirbc={dirbc} strategy={strat} T={T} v={v}',
